@@ -131,7 +131,18 @@ def parseOp : List String → Option Op
   | ["pinmode", c, m, n, x] => do pure (.pinMode (← c.toNat?) (← m.toInt?) (← n.toNat?) (← parseCtx x))
   | ["unpin", c, r, x] => do pure (.unpin (← c.toNat?) ((← r.toNat?) == 1) (← parseCtx x))
   | ["update", a, b, u, x] => do pure (.update (← a.toNat?) (← b.toNat?) ((← u.toNat?) == 1) (← parseCtx x))
+  | ["autosync", b] => do pure (.setAutosync ((← b.toNat?) == 1))
+  | ["flush"] => some .flush
   | _ => none
+
+def splitAt2 (ts : List String) : List String × List String :=
+  (ts.takeWhile (· ≠ ";;"), (ts.dropWhile (· ≠ ";;")).drop 1)
+
+/-- result token of a call (SetAutosync returns the previous value) -/
+def callTok (before : St) (op : Op) (r : Res) : String :=
+  match op with
+  | .setAutosync _ => if before.autoSync then "was1" else "was0"
+  | _ => resTok r
 
 /-- `dag <n> <tok>…`, tok = ('+'|'!') salt ':' links -/
 def parseDag (ts : List String) : Option (Dag × List Nat) :=
